@@ -85,6 +85,40 @@ Proof.
   exact (body_ends_in_space_only_if cw alnum lbc custom_sp o first line bws groups g HS Horacle E1 G1 Hg Hn).
 Qed.
 
+(* the clause as the property words it, for the built-in splitters (audit: the theorem above concludes option flags only): if a body ends in a space then the separator is Unicode, break_words is on, and the last fragment of the line is a NON-LAST piece of break_apart applied to a word w of the paragraph that is wider than the break limit (it had to be cut) and contains a space; the piece's own text ends in that space and carries no whitespace or penalty *)
+From TW Require Import CutSpace.
+Theorem C01_body_ends_in_space_cut :
+  forall (cw : Chars.char -> BinNums.N) (alnum : Chars.char -> bool)
+           (lbc custom_sp : Chars.str -> list BinNums.N) (o : Wrap.options) (first : bool) 
+           (line : Chars.str) (bws : list Word.word) (groups : list (list Word.word)) 
+           (g : list Word.word),
+         Pipeline.SplitterOK custom_sp ->
+         (Wrap.o_sep o = Wrap.SepUnicode ->
+          Lossless.OracleOK (Esc.strip line) (lbc (Esc.strip line)) /\
+          TrailingSpace.NoBreakBetweenSpaces (Esc.strip line) (lbc (Esc.strip line))) ->
+         Wrap.o_spl o <> Wrap.SplCustom ->
+         Pipeline.pipeline_words cw alnum lbc custom_sp o first line = Some bws ->
+         List.concat groups = bws ->
+         List.In g groups ->
+         ~ Pipeline.no_trailing_sp (Pipeline.body g) ->
+         Wrap.o_sep o = Wrap.SepUnicode /\
+         Wrap.o_bw o = true /\
+         (exists sws : list Word.word,
+            Splitters.split_words cw (Wrap.split_points alnum custom_sp (Wrap.o_spl o))
+              (Wrap.find_words cw lbc (Wrap.o_sep o) line) = Some sws /\
+            (let lim := BinNat.N.sub (Wrap.o_width o) (Esc.dw cw (Wrap.o_si o)) in
+             exists (init : list Word.word) (x w : Word.word) (k : nat),
+               g = (init ++ x :: nil)%list /\
+               List.In w sws /\
+               List.nth_error (Word.break_apart cw lim w) k = Some x /\
+               (S k < length (Word.break_apart cw lim w))%nat /\
+               BinNat.N.lt lim (Word.w_width w) /\
+               Word.w_width w = Esc.dw cw (Word.w_word w) /\
+               List.In Chars.SP (Word.w_word w) /\
+               TrailingSpace.ends_with_sp (Word.w_word x) /\ Word.w_ws x = nil /\ Word.w_pen x = nil)).
+Proof. exact (@body_ends_in_space_cut). Qed.
+
+Print Assumptions C01_body_ends_in_space_cut.
 Print Assumptions C01_line_body_ends_in_space_only_if.
 Print Assumptions C01_body_ends_in_space_only_if.
 Print Assumptions C01_wrap.
